@@ -21,7 +21,7 @@ package bitswap
 //@   ensures err == nil && old(sb.Container.Proof) == nil ==> sb.Container.Proof != nil && nmtIncl1(deref(sb.Container.Proof), ((sb.ID.ShareIndex >= len(root.RowRoots)/2 || sb.ID.RowID.RowIndex >= len(root.RowRoots)/2) ? libshare.ParitySharesNamespace.data : sb.Container.Share.data[0:29]), sb.Container.Share.data, (sb.Container.ProofType == 0 ? root.RowRoots[uint(sb.ID.RowID.RowIndex)] : root.ColumnRoots[uint(sb.ID.ShareIndex)]))
 
 //@ func (*RowBlock).UnmarshalFn$1
-//@   property C10 C06 C03
+//@   property C10 C06
 //@   requires rb != nil && 0 <= rb.ID.RowIndex && rb.ID.RowIndex < len(root.RowRoots)
 //@   modifies rb
 //@   ensures rb.ID == old(rb.ID)
@@ -66,7 +66,7 @@ package bitswap
 //@ pure func rangeEmpty(c shwap.RangeNamespaceData) bool = c.Shares == nil && c.FirstIncompleteRowProof == nil && c.LastIncompleteRowProof == nil
 
 //@ func (*RangeNamespaceDataBlock).UnmarshalFn$1
-//@   property C10 C06 C03
+//@   property C10 C06
 //@   requires rndb != nil && root != nil
 //@   modifies rndb
 //@   ensures rndb.ID == old(rndb.ID)
